@@ -139,6 +139,9 @@ pub struct Cfg {
     pub payloads: Vec<u8>,
     pub kinds: BTreeSet<&'static str>,
     pub migrate_probe: bool,
+    /// allowances granted (IncreaseAllowance by the owner, real entry point) before exploration starts:
+    /// large tables for upgrade configurations
+    pub pre_allow: Vec<(u8, u8, u128)>,
 }
 
 impl Cfg {
@@ -166,6 +169,7 @@ impl Cfg {
             payloads: vec![0],
             kinds: BTreeSet::new(),
             migrate_probe: false,
+            pre_allow: vec![],
         }
     }
     pub fn addr(&self, i: u8) -> String {
@@ -756,15 +760,21 @@ impl Model for Cw20Model {
         if !dup && total.is_some() {
             self.check_state(&w, &r, &obs, &mut v);
         }
-        (
-            State {
-                w,
-                r,
-                obs: Arc::new(obs),
-                dead: false,
-            },
-            v,
-        )
+        let mut st = State {
+            w,
+            r,
+            obs: Arc::new(obs),
+            dead: false,
+        };
+        for (o, sp, a) in &cfg.pre_allow {
+            let stp = self.step(&st, &Act::Inc { owner: *o, spender: *sp, amt: Amt(*a), exp: ExpA::Unset });
+            if !stp.ok {
+                v.push(Violation::new("cfg.pre_allow_refused", format!("IncreaseAllowance {o}->{sp} {a} refused")));
+            }
+            v.extend(stp.violations);
+            st = stp.next;
+        }
+        (st, v)
     }
 
     fn actions(&self, s: &State) -> Vec<Act> {
